@@ -158,6 +158,13 @@ def alphabet(seed_):
     for kind in ('svg', 'png', 'pdf', 'eps', 'ppm'):
         render(f'{kind}_alpha_int1', kind, dark=(0, 0, 139, 1))
         render(f'{kind}_alpha_float1', kind, dark=(0, 0, 139, 1.0))
+    # contents that compare equal but are different contents (1 / True -> '1' / 'True'), alone and as a part
+    add('content_int1', 'make', 1)
+    add('content_true', 'make', True)
+    add('content_int0', 'make', 0, micro=False)
+    add('content_false', 'make', False, micro=False)
+    add('content_parts_int1', 'make', [1, 'A'])
+    add('content_parts_true', 'make', [True, 'A'])
     render('svg_scale_int', 'svg', scale=2)
     render('svg_scale_float', 'svg', scale=2.0)
     render('svg_scale_true', 'svg', scale=True)
@@ -661,7 +668,7 @@ def run_c15(rep, tier):
     small = [n for n in names if n not in ('v20', 'v20b', 'v10', 'v10b') and not n.startswith('big_') and not n.startswith('sparse_') and not n.startswith('drop')]
     # quick tier: all ordered pairs of the core alphabet; the later additions (value-class variants of one call) are paired with
     # themselves, with their neighbours (same prefix) and with 10 seeded partners each
-    VARIANT = ('eci_', 'svg_alpha', 'png_alpha', 'pdf_alpha', 'eps_alpha', 'ppm_alpha', 'svg_scale', 'png_dark_alpha', 'png_light_alpha', 'png_both', 'svg_dark_none')
+    VARIANT = ('eci_', 'svg_alpha', 'png_alpha', 'pdf_alpha', 'eps_alpha', 'ppm_alpha', 'svg_scale', 'png_dark_alpha', 'png_light_alpha', 'png_both', 'svg_dark_none', 'content_')
     core = [n for n in small if not n.startswith(VARIANT)]
     partners = {n: set(r.sample(core, 10)) for n in small if n.startswith(VARIANT)}
     tasks = []
